@@ -50,6 +50,13 @@ def abscissa(rng, n, zmax, zmin, law):
         u = np.linspace(0, 1, n)
         du = 1 / (n - 1)
         u[1:-1] += rng.uniform(-.9, .9, n - 2) * du
+    elif law == "overshoot":
+        # the deepest position is reached a few samples before the end of
+        # the segment, then the tip retreats a little (piezo overshoot)
+        u = np.linspace(0, 1, n)
+        m = int(min(max(2, n // 100), 6, n - 2))
+        du = 1 / (n - 1)
+        u[-m:] = u[-m - 1] - du * .6 * np.arange(1, m + 1)
     else:  # quadratic: denser near the far end
         u = np.linspace(0, 1, n) ** 2
     return zmax + (zmin - zmax) * u
